@@ -254,9 +254,26 @@ def hash_compare_sites(b, T, need_a, need_b):
         a0 = simplify(T.of_operand(b, t['args'][0]))
         a1 = simplify(T.of_operand(b, t['args'][1]))
         if (need_a(a0) and need_b(a1)) or (need_a(a1) and need_b(a0)):
-            # the switch on the result
+            # the switch on the result: in the next block, or - when the comparison sits in an inlined helper that returns the
+            # boolean - behind the straight line of moves that carries it back to the caller
             nxt = t['t']
             sw = b.blocks[nxt]['term'] if nxt is not None else None
+            val, hops = (t['dest']['l'] if not t['dest']['p'] else None), 0
+            while sw is not None and sw['k'] == 'goto' and val is not None and hops < 6:
+                for st_ in b.blocks[nxt]['stmts']:
+                    if st_['k'] == 'assign' and not st_['pl']['p'] and st_['rv']['k'] == 'use' and st_['rv']['op']['k'] in ('copy', 'move') \
+                            and not st_['rv']['op']['pl']['p'] and st_['rv']['op']['pl']['l'] == val:
+                        val = st_['pl']['l']
+                nxt = sw['t']
+                sw = b.blocks[nxt]['term']
+                hops += 1
+            if sw is not None and sw['k'] == 'switch' and hops:
+                for st_ in b.blocks[nxt]['stmts']:
+                    if st_['k'] == 'assign' and not st_['pl']['p'] and st_['rv']['k'] == 'use' and st_['rv']['op']['k'] in ('copy', 'move') \
+                            and not st_['rv']['op']['pl']['p'] and st_['rv']['op']['pl']['l'] == val:
+                        val = st_['pl']['l']
+                if not (sw['op']['k'] in ('copy', 'move') and not sw['op']['pl']['p'] and sw['op']['pl']['l'] == val):
+                    sw = None
             if not sw or sw['k'] != 'switch':
                 out.append((bi, t, None, None))
                 continue
